@@ -1068,3 +1068,14 @@ V("c03-twin-sliding-window-recheck-inline-chunks", "C03", "-", "dask_array/reduc
   "        chunks = self.array.chunks[self.sliding_axis]\n        if supports_native_sliding_window(chunks, self.window):\n            return None\n        depth = self.window - 1\n", "        if supports_native_sliding_window(self.array.chunks[self.sliding_axis], self.window):\n            return None\n        chunks = self.array.chunks[self.sliding_axis]\n        depth = self.window - 1\n", twin=True)
 V("c05-sliding-window-layer-without-unlowered-guard", "C05", "R05.9", "dask_array/reductions/_sliding_window.py",
   "        graph = self._graph_if_unlowered()\n        if graph is not None:\n            return graph\n        x = self.array\n        axis = self.sliding_axis\n\n        total_name", "        x = self.array\n        axis = self.sliding_axis\n\n        total_name", expect="SlidingWindowReduction._layer")
+
+# -- R03.15: replacements inherit consumers -------------------------------------------------------------------------
+V("c03-simplify-driver-drops-consumers-after-simplify-down", "C03", "R03.15", "dask_array/_expr.py",
+  "        if out._name != expr._name:\n            inherit(expr, out)\n            expr = out\n\n        # Allow children", "        if out._name != expr._name:\n            expr = out\n\n        # Allow children", expect="simplify_once")
+V("c03-simplify-driver-override-removed", "C03", "R03.15", "dask_array/_expr.py",
+  "    def simplify_once(self, dependents, simplified):\n        \"\"\"``Expr.simplify_once`` with one addition", "    def _simplify_once_unused(self, dependents, simplified):\n        \"\"\"``Expr.simplify_once`` with one addition", expect="Expr.simplify_once")
+V("c03-twin-simplify-driver-renamed-locals", "C03", "-", "dask_array/_expr.py", None, None, twin=True, edits=[
+  ("dask_array/_expr.py", "        def inherit(old, new):\n            refs = dependents.get(old._name)\n            if refs:\n                seen = dependents[new._name]\n                seen.extend(ref for ref in refs if ref not in seen)\n", "        def hand_over(old, new):\n            refs = dependents.get(old._name)\n            if refs:\n                seen = dependents[new._name]\n                seen.extend(ref for ref in refs if ref not in seen)\n"),
+  ("dask_array/_expr.py", "        if out._name != expr._name:\n            inherit(expr, out)\n            expr = out\n\n        # Allow children", "        if out._name != expr._name:\n            hand_over(expr, out)\n            expr = out\n\n        # Allow children"),
+  ("dask_array/_expr.py", "            if out is not expr and out._name != expr._name:\n                inherit(expr, out)\n                expr = out\n                break", "            if out is not expr and out._name != expr._name:\n                hand_over(expr, out)\n                expr = out\n                break"),
+])
